@@ -960,10 +960,6 @@ def ctxAfter (st : Static) (sc : List String) (pre : List AstNode) : List String
 /-- the provider of `defs/data_block.rs` and `defs/symbol.rs`: no variable is known -/
 def pureP : SKProvider := { queryFunction := asmBuiltinKnown }
 
-/-- no rule parameter is named like a built-in inclusion function -/
-def paramsOKb (d0 : Defs) : Bool :=
-  d0.ruledefs.all fun rd => rd.rules.all fun r => r.params.all fun prm => !isAsmBuiltinName prm.1
-
 /-- `(i, node i)` for every position -/
 def positions (nodes : List AstNode) : List (Nat × AstNode) :=
   (List.range nodes.length).filterMap fun i => (nodes[i]?).map fun n => (i, n)
@@ -972,7 +968,7 @@ def positions (nodes : List AstNode) : List (Nat × AstNode) :=
     element references are pairwise distinct; an instruction flagged statically known has only
     statically known candidates in the symbol context of its node; a data element flagged so has a
     statically known expression; no label is flagged; a flagged symbol with a value is marked
-    resolved; no rule parameter is named like a built-in inclusion function -/
+    resolved -/
 def frontOKb (st : Static) (nodes : List AstNode) (d0 : Defs) : Bool :=
   let pos := positions nodes
   d0.instrs.all (fun i => !i.resolved) && d0.datas.all (fun x => !x.resolved)
@@ -993,7 +989,6 @@ def frontOKb (st : Static) (nodes : List AstNode) (d0 : Defs) : Bool :=
       | _ => true)
   && (!st.opts.optStatic || (List.range d0.symbols.length).all fun r =>
         !(d0.sym r).known || (match (d0.sym r).value with | .unknown => true | _ => false) || (d0.sym r).resolved)
-  && paramsOKb d0
 
 /-- **Fixed-point certificate** (C02): a claimed final state is re-checked by one strict
     (guessing forbidden), non-first pass; it must be accepted, stable, silent and unchanged. -/
